@@ -6656,7 +6656,7 @@ impl<'a> Tyck<'a> for TyEnvT<su::TermId> {
                 tycker.statics.types_pre.insert_new(
                     outcome.ret_ty_id,
                     ss::Fillable::Done(outcome.ret_ty),
-                    outcome.vtype,
+                    outcome.ctype,
                 );
                 tycker.store_env(outcome.ret_ty_id, &self.info);
                 tycker.statics.compus.insert_new(outcome.ret_id, outcome.ret);
